@@ -762,7 +762,10 @@ class Response(_SansIOResponse):
                 None,
                 self.headers.get("last-modified"),
             ):
-                if parse_etags(environ.get("HTTP_IF_MATCH")):
+                if_match = parse_etags(environ.get("HTTP_IF_MATCH"))
+                etag = self.get_etag()[0]
+
+                if if_match and (etag is None or not if_match.contains(etag)):
                     self.status_code = 412
                 else:
                     self.status_code = 304
